@@ -7,6 +7,7 @@ import (
 	"sort"
 	"strings"
 	"time"
+	"unicode/utf8"
 
 	"golang.org/x/telemetry/internal/telemetry"
 	"golang.org/x/telemetry/internal/verif/vformat"
@@ -148,6 +149,41 @@ func Aggregate(files []*CountFile) (out map[Build]*ProgCounts, overflow bool) {
 		}
 	}
 	return out, overflow
+}
+
+// AsRendered returns the aggregate with every name as a JSON rendering shows it: each byte that is not part of a
+// valid UTF-8 sequence is replaced by U+FFFD (names that become equal are summed). Approval is decided on the raw
+// names; only the comparison with a report that was written as JSON uses the rendered ones.
+func AsRendered(agg map[Build]*ProgCounts) map[Build]*ProgCounts {
+	out := map[Build]*ProgCounts{}
+	for b, p := range agg {
+		q := &ProgCounts{Build: b, Counters: map[string]int64{}, Stacks: map[string]int64{}}
+		for k, v := range p.Counters {
+			q.Counters[renderedName(k)] += v
+		}
+		for k, v := range p.Stacks {
+			q.Stacks[renderedName(k)] += v
+		}
+		out[b] = q
+	}
+	return out
+}
+
+func renderedName(s string) string {
+	if utf8.ValidString(s) {
+		return s
+	}
+	var sb strings.Builder
+	for i := 0; i < len(s); {
+		r, size := utf8.DecodeRuneInString(s[i:])
+		if r == utf8.RuneError && size == 1 {
+			sb.WriteRune('\uFFFD')
+		} else {
+			sb.WriteString(s[i : i+size])
+		}
+		i += size
+	}
+	return sb.String()
 }
 
 // Filter is the approved subset of an aggregate for a given X.
